@@ -670,11 +670,10 @@ def zero_valid(ctx):
 
 
 
-def session_lifecycle(ctx):
+def session_lifecycle(ctx, rule='C13.session-lifecycle'):
     """A pairing session processes nothing after it has ended, is replaced when a new request arrives, and derives keys only after the key exchange."""
     from .. import sym
     R, p = ctx.r, ctx.p
-    rule = 'C13.session-lifecycle'
     oc = p.find(f'{S}.on_smp_command')
     if oc is None:
         R.bad(rule, f'{S}.on_smp_command', 'anchor missing')
@@ -702,6 +701,21 @@ def session_lifecycle(ctx):
         ok = any(any('session.completed' in x for x in gg) and any('PAIRING_REQUEST' in x for x in gg) for gg in g)
         R.check(ok, rule, 'bumble.smp.Manager.on_smp_pdu | new request, finished session', 'a Pairing Request for a connection whose session has completed ends that session and starts a new one',
                 'a new Pairing Request is handed to a session that has already completed: nothing answers it and the initiator\'s pair() never returns (no second pairing, no retry after a failure)', p.loc(mp))
+    if mp is not None:
+        # ending a session removes the manager's entry *by connection handle*: it must happen before the replacing session is
+        # registered under the same handle, or the new session is what gets removed
+        late = []
+
+        class Ord(paths.Domain):
+            def event(self, node, v):
+                if isinstance(node, ast.Assign) and isinstance(node.targets[0], ast.Subscript) and dotted(node.targets[0].value) == 'self.sessions':
+                    return (True,)
+                if isinstance(node, ast.Call) and (call_attr(node) in ('on_disconnection', 'on_session_end')) and v:
+                    late.append(node.lineno)
+                return (v,)
+        paths.run(mp, Ord(), False)
+        R.check(not late, rule, 'bumble.smp.Manager.on_smp_pdu | old session ended before the new one is registered', 'no session is ended after self.sessions[handle] has been given the new session',
+                f'a session is ended (line {sorted(set(late))}) after the new session was stored in self.sessions: ending removes the entry by connection handle, i.e. the new session; the rest of the pairing finds no session and fails', p.loc(mp))
     sc = p.find(f'{S}.on_smp_pairing_random_command_secure_connections')
     if sc is not None:
         seen2 = []
